@@ -366,6 +366,12 @@ func (v *V) IPNet() net.IPNet {
 		for i := range ip {
 			ip[i] = byte(r.U64())
 		}
+		if bits == 128 && r.Chance(1, 5) {
+			// an IPv4-mapped IPv6 prefix (what net.ParseCIDR("::ffff:10.1.2.0/120") returns): 16-byte address and
+			// mask, printed in IPv4 notation
+			copy(ip, net.IPv4(byte(r.U64()), byte(r.U64()), byte(r.U64()), byte(r.U64())).To16())
+			ones = 96 + r.Intn(33)
+		}
 		mask := net.CIDRMask(ones, bits)
 		if v.CanonicalNet || r.Bool() {
 			ip = ip.Mask(mask)
